@@ -319,6 +319,40 @@ func Main() {
 		}
 		units = append(units, m.unitsFor(fi, nRandom)...)
 	}
+	if !run.Thorough() {
+		// the very large faces (CJK, CID-keyed CFF) are sampled in the quick tier: static
+		// setting, the first chunks of glyph ids plus chunks spread over the glyph range
+		var large []*faceInfo
+		for _, fi := range infos {
+			if fi.nGlyph > 12000 {
+				large = append(large, fi)
+			}
+		}
+		gen.Shuffle(gen.New(run.Seed, "C10/large-faces", 0), large)
+		if len(large) > 10 {
+			large = large[:10]
+		}
+		static := &setting{name: "static"}
+		for _, fi := range large {
+			run.Cover("faces/large-sampled")
+			seen := map[int]bool{}
+			for j := 0; j < 12; j++ {
+				lo := j * chunkGlyphs // the first chunks
+				if j >= 4 {
+					lo = (j - 4) * fi.nGlyph / 8 / chunkGlyphs * chunkGlyphs
+				}
+				if lo >= fi.nGlyph || seen[lo] {
+					continue
+				}
+				seen[lo] = true
+				hi := lo + chunkGlyphs
+				if hi > fi.nGlyph {
+					hi = fi.nGlyph
+				}
+				units = append(units, unit{fi: fi, what: 1, st: static, lo: lo, hi: hi})
+			}
+		}
+	}
 	// large units first: better balance
 	sort.SliceStable(units, func(i, j int) bool { return units[i].hi-units[i].lo > units[j].hi-units[j].lo })
 	run.Extra("faces_chosen", len(chosen))
